@@ -103,6 +103,28 @@ fn menu(st: &SorterState, t: usize, growth_cap: usize) -> Vec<usize> {
     m
 }
 
+/// "Leaks the buffer": memory that every run leaves behind. If the calling thread holds more live
+/// bytes after a run than before, the run is repeated: a leak grows again, whereas something kept
+/// for reuse (a scratch buffer, a pool) or freed by another thread does not — that is not a leak.
+fn leak_of(before: (i64, i64), after: (i64, i64), again: impl FnOnce() -> Result<(), String>) -> Option<String> {
+    if after.0 <= before.0 {
+        return None;
+    }
+    let b2 = calloc::live();
+    let _ = again();
+    let a2 = calloc::live();
+    if a2.0 > b2.0 {
+        Some(format!(
+            "leak: {} bytes in {} allocations still live after everything was dropped, and {} more after the same run was repeated",
+            after.0 - before.0,
+            after.1 - before.1,
+            a2.0 - b2.0
+        ))
+    } else {
+        None
+    }
+}
+
 fn check_alloc(what: &str) -> Result<(), String> {
     let r = calloc::report();
     if r.errors > 0 {
@@ -152,16 +174,9 @@ fn bfs(cfg: &SorterCfg, growth_cap: usize, max_states: usize, deadline: &Deadlin
             let r = run_sizes(cfg, &h2, true);
             let r = r.and_then(|s| check_alloc("after the run").map(|_| s));
             let live_after = calloc::live();
-            let r = r.and_then(|s| {
-                if live_after != live_before {
-                    Err(format!(
-                        "leak: {} bytes in {} allocations still live after everything was dropped",
-                        live_after.0 - live_before.0,
-                        live_after.1 - live_before.1
-                    ))
-                } else {
-                    Ok(s)
-                }
+            let r = r.and_then(|s| match leak_of(live_before, live_after, || run_sizes(cfg, &h2, true).map(|_| ())) {
+                Some(msg) => Err(msg),
+                None => Ok(s),
             });
             match r {
                 Ok(s2) => {
@@ -198,12 +213,17 @@ fn read_paths(acc: &mut Acc) {
         }
     }
     for spec in &specs {
-        // warm-up run: lazily initialised statics / thread-locals (codec contexts, scratch buffers)
-        // are allowed to stay alive; only what a second identical run leaves behind is a leak
+        // warm-up run (the same queries): lazily initialised statics / thread-locals (codec
+        // contexts, scratch buffers) may stay alive; only what a second identical run leaves behind
+        // on top of that is a leak
         {
             let mut warm = Acc::default();
             if let Some((model, bytes, _)) = crate::qcheck::build_or_report("C17", spec, &mut warm) {
-                let qs = crate::query::scan_queries();
+                let mut qs = crate::query::scan_queries();
+                let probes = model.class_probes();
+                qs.extend(crate::query::seek_queries(&probes, &[crate::query::CursorMode::Fresh, crate::query::CursorMode::Reset]));
+                qs.extend(crate::query::range_queries(&crate::qcheck::reduced_reps(&model, 3)));
+                qs.extend(crate::query::prefix_queries(&crate::c05::key_prefixes(&model)));
                 crate::qcheck::run_queries("C17", spec, &bytes, &model, &qs, &mut warm);
             }
         }
@@ -232,7 +252,7 @@ fn read_paths(acc: &mut Acc) {
         if let Err(e) = check_alloc("read paths") {
             acc.violation(Violation { signature: format!("alloc;{}", serde_json::to_string(spec).unwrap()), summary: format!("C17: {e}"), case: json!({"kind": "readpath", "file": spec}) });
         }
-        if !harness_retained && calloc::live() != live_before {
+        if !harness_retained && calloc::live().0 > live_before.0 {
             acc.violation(Violation { signature: format!("leak;{}", serde_json::to_string(spec).unwrap()), summary: "C17: read path leaked memory".into(), case: json!({"kind": "readpath", "file": spec}) });
         }
         acc.hist("read_path_file_ok");
@@ -312,7 +332,10 @@ pub fn native_main(tier: Tier) {
         let cfg = SorterCfg { min_memory: None, initial: None, dump_threshold: Some(10 << 20), allow_realloc: realloc, max_nb_chunks: Some(3), ..SorterCfg::scaled(0, 0, realloc, 3, false) };
         let live = calloc::live();
         let r = run_sizes(&cfg, &sizes, true).and_then(|_| check_alloc("shipped buffer sizes"));
-        let r = r.and_then(|_| if calloc::live() != live { Err("the buffer is leaked after the run".to_string()) } else { Ok(()) });
+        let r = r.and_then(|_| match leak_of(live, calloc::live(), || run_sizes(&cfg, &sizes, true).map(|_| ())) {
+            Some(m) => Err(m),
+            None => Ok(()),
+        });
         acc.evaluations += 1;
         acc.transitions += sizes.len() as u64;
         match r {
@@ -365,7 +388,10 @@ pub fn native_replay(case: &serde_json::Value) -> i32 {
     let c: Case = serde_json::from_value(case["case"].clone()).expect("bad replay: case");
     let live = calloc::live();
     let r = run_sizes(&c.cfg, &c.sizes, true).and_then(|_| check_alloc("replay"));
-    let r = r.and_then(|_| if calloc::live() != live { Err("leak after the run".to_string()) } else { Ok(()) });
+    let r = r.and_then(|_| match leak_of(live, calloc::live(), || run_sizes(&c.cfg, &c.sizes, true).map(|_| ())) {
+        Some(m) => Err(m),
+        None => Ok(()),
+    });
     match r {
         Ok(()) => {
             println!("replay: no allocator report, no overflow, output equals the model");
